@@ -152,7 +152,7 @@ func streamValues(c *ctx) {
 			return c.r.bytes(1 + c.r.intn(9))
 		}
 		kc := cose.KDFContext{AlgorithmID: pick(c.r, []int{-3, 1, 25, 100000}), PartyUInfo: cose.PartyInfo{Identity: ob(), Nonce: ob(), Other: ob()},
-			PartyVInfo: cose.PartyInfo{Identity: ob(), Nonce: ob(), Other: ob()},
+			PartyVInfo:  cose.PartyInfo{Identity: ob(), Nonce: ob(), Other: ob()},
 			SuppPubInfo: cose.SuppPubInfo{KeyDataLength: uint(pick(c.r, []int{128, 256, 0})), Protected: cose.Headers{iana.HeaderParameterAlg: -29}, Other: ob()}, SuppPrivInfo: ob()}
 		if c.r.bool() {
 			kc.SuppPubInfo.Protected = cose.Headers{}
